@@ -19,8 +19,10 @@ s = open(p).read()
 i = s.index("| id | property | what it needs to manifest | caught by |")
 s = s[:i] + tbl + f'''
 
-All {len(rows)} stored sub-agent changes are caught by the check of the property they target; {n_hist} of them
-only after the generator / parameter sets were strengthened ({", ".join(hist_ids)}) — either after a
+All {len(rows)} stored sub-agent changes are caught by the check of the property they target, with one exception:
+S7-C13-alaska-stored-stv-stage was written against C13 but leaves Alaska's recorded rounds (C13's subject) correct and
+breaks only the profile `get_profile` returns for the final round - the clause of C09, whose check catches it. {n_hist} of them
+were caught only after the generator / parameter sets were strengthened ({", ".join(hist_ids)}) — either after a
 first miss, or because the change description showed (and a run on a patched scratch copy confirmed) that
 the existing generator could not reach the trigger; each meta.json `history` says which. Each meta.json
 also records the demonstration (fails with the change, passes without), the repository's own 374 tests
@@ -28,6 +30,10 @@ passing with the change, the verdict of every check that was run against it, and
 the target property's check against the patch on the last tree (`tools/seeded_recheck.py`). Waves 3-7
 asked further agents for a change on a *less obvious* clause; four of them (C01, C06, C12, C14)
 independently produced the very same edit as the earlier agent for that property and were not stored twice.
+Waves 8-9 steered the agents away from the functions already changed; waves 10-11 asked for state-leakage /
+call-history defects (caches, mutable defaults, class-level containers, aliasing, in-place edits). The `recheck`
+of the waves before 8 was done on the final tree (the last 31 at 0.6 of the quick budget); waves 8-11 were
+evaluated on essentially that tree.
 '''
 open(p, 'w').write(s)
 print(len(rows), 'rows,', n_hist, 'with history')
